@@ -1,13 +1,15 @@
 /-
   The authorization endpoint and its callback on both routers, as a state machine over the stored
-  authorization requests.  Everything that decides is REGENERATED (Generated/Authorize.lean); written by
-  hand are only
-    * `providerAuthorize`  = `op.Authorize` (its validation closure is outside the translator's subset),
-    * `legacyAuthorize`    = `webServer.authorizeHandler` (generic `decodeRequest`, `WriteError`, `writeOut`),
-  both after the statement skeletons `Gen.Authorize_skeleton` / `Gen.authorizeHandler_skeleton`, which
-  Proofs/C03 pins, and the storage (`mkStorage`: registrations are constant, every call may fail).
+  authorization requests.  Since round 3 EVERYTHING on the path is REGENERATED (Generated/Authorize.lean,
+  Generated/AuthorizeShell.lean): `op.Authorize` (`GenAz.Authorize`; its validation closure assigns to the captured
+  variable `client` - FuncSpec.CaptureOut), `webServer.authorizeHandler` with `decodeRequest`, `WriteError`,
+  `writeError`, `Redirect.writeOut`, `ParseAuthorizeRequest`, `ParseRequestObject` / `CopyRequestObjectToAuthRequest`,
+  `AuthResponseFormPost`.  Written by hand are only
+    * `providerAuthorize` / `providerAuthorizeCore`: the hand-readable SPEC of `op.Authorize` for the library's own Provider
+      (no custom `AuthorizeValidator`), proved equal to `GenAz.Authorize` in Proofs/C03Char (`authorize_eq`),
+    * the storage (`mkStorage`: registrations are constant, every call may fail) and the step function.
 -/
-import OidcModel.Generated.Authorize
+import OidcModel.Generated.AuthorizeShell
 
 namespace Authz
 open Go
@@ -35,9 +37,9 @@ def providerAuthorizeCore (now : Int) (o : UriOracle) (d : AuthDeps) (p : AzProv
           | .error e => Gen.AuthRequestError now o authReq (Hand.DefaultToServerError now e "unable to save auth request") p
           | .ok req => Gen.RedirectToLogin now req.GetID client
 
-/-- `op.Authorize(w, r, authorizer)`; `parsed` = the result of `ParseAuthorizeRequest` -/
-def providerAuthorize (now : Int) (o : UriOracle) (d : AuthDeps) (p : AzProvider) (parsed : Go.R AuthRequestData) : List Write :=
-  match parsed with
+/-- `op.Authorize(w, r, authorizer)`: `ParseAuthorizeRequest` (REGENERATED), request object, then the core -/
+def providerAuthorize (now : Int) (o : UriOracle) (d : AuthDeps) (p : AzProvider) (r : AzHttpReq) : List Write :=
+  match GenAz.ParseAuthorizeRequest now r p.Decoder with
   | .error e => Gen.AuthRequestError now o Go.nil e p
   | .ok authReq =>
     if authReq.RequestParam != "" && p.RequestObjectSupported then
@@ -46,15 +48,10 @@ def providerAuthorize (now : Int) (o : UriOracle) (d : AuthDeps) (p : AzProvider
       | .ok authReq => providerAuthorizeCore now o d p authReq
     else providerAuthorizeCore now o d p authReq
 
-/-- `webServer.authorizeHandler`; `decoded` = the result of `decodeRequest`.  `WriteError` answers with a JSON
-    error document (never a Location), `Redirect.writeOut` with a 302 to the URL it was given. -/
-def legacyAuthorize (now : Int) (o : UriOracle) (d : AuthDeps) (s : AzWebServer) (decoded : Go.R AuthRequestData) : List Write :=
-  match decoded with
-  | .error _ => [.page 400]
-  | .ok req =>
-    match Gen.WebAuthorize now o d s { Data := req } with
-    | .error _ => [.page 400]
-    | .ok red => [.redirect red.URL]
+/-- `webServer.authorizeHandler` is REGENERATED (`GenAz.WebAuthorizeHandler`: `decodeRequest`, `webServer.authorize`, `WriteError`
+    / `writeError` - a JSON error document, never a Location - and `Redirect.writeOut`, a 302 to the URL it was given). -/
+def legacyAuthorize (now : Int) (o : UriOracle) (d : AuthDeps) (s : AzWebServer) (r : AzHttpReq) : List Write :=
+  GenAz.WebAuthorizeHandler now o d s r
 
 /-- injected storage faults of one request: `some e` = that call fails with error `e` -/
 structure Faults where
@@ -93,11 +90,11 @@ def mkStorage (cfg : Cfg) (st : St) (fx : Faults) (newID : String) : AzStorage :
         | some a => .ok a
         | none => .error "auth request not found" }
 
-def mkProvider (cfg : Cfg) (st : St) (fx : Faults) (newID : String) : AzProvider :=
-  { Storage := mkStorage cfg st fx newID, Encoder := cfg.encoder, RequestObjectSupported := cfg.requestObjects }
+def mkProvider (cfg : Cfg) (st : St) (fx : Faults) (newID : String) (dec : AzDecoder := {}) : AzProvider :=
+  { Storage := mkStorage cfg st fx newID, Encoder := cfg.encoder, RequestObjectSupported := cfg.requestObjects, Decoder := dec }
 
 inductive Op
-  | authorize (rt : Router) (parsed : Go.R AuthRequestData) (d : AuthDeps) (fx : Faults) (newID : String)
+  | authorize (rt : Router) (r : AzHttpReq) (dec : AzDecoder) (d : AuthDeps) (fx : Faults) (newID : String)
   | login (id : String)                                  -- the login UI completes request `id`
   | callback (r : AzHttpReq) (d : AuthDeps) (fx : Faults)
 
@@ -109,11 +106,11 @@ def storedBy (ws : List Write) : List AzStored :=
 
 def step (now : Int) (o : UriOracle) (cfg : Cfg) (st : St) (op : Op) : St × List Write :=
   match op with
-  | .authorize rt parsed d fx newID =>
-    let p := mkProvider cfg st fx newID
+  | .authorize rt r dec d fx newID =>
+    let p := mkProvider cfg st fx newID dec
     let ws := match rt with
-      | .provider => providerAuthorize now o d p parsed
-      | .legacy => legacyAuthorize now o d ⟨⟨p⟩⟩ parsed
+      | .provider => GenAz.Authorize now o d r p
+      | .legacy => legacyAuthorize now o d { server := ⟨p⟩, decoder := dec } r
     ({ st with stored := st.stored ++ storedBy ws }, ws)
   | .login id => ({ st with stored := st.stored.map fun a => if a.id == id then { a with done := true } else a }, [])
   | .callback r d fx => (st, Gen.AuthorizeCallback now o d r (mkProvider cfg st fx ""))
